@@ -256,4 +256,4 @@ def _prop(case, stats):
 
 def run(h):
     depth = 3 if h.quick else 5
-    h.run_given(lambda: cases(depth), _prop, h.n(300, 15000), shards=8 if h.quick else 16)
+    h.run_given(lambda: cases(depth), _prop, h.n(300, 5000), shards=8 if h.quick else 16)
